@@ -72,6 +72,28 @@ open WinTree (Id Win Req Change Tree)
 
 /-! ## the invariant of the whole state -/
 
+/-- References the library itself holds between two calls or while an entry point runs, which the window tree of this
+    layer does not know about (`Model/LifeTop.lean`: the toplevel instance's references to the terminal and to the root
+    window, the reference an input entry point of the terminal holds while it works).  A parameter of the invariant:
+    no operation of this layer reads or changes it. -/
+structure Ghost where
+  term : Nat := 0
+  win : Nat → Nat := fun _ => 0
+
+/-- Nobody but the application and the windows holds anything. -/
+def Ghost.none : Ghost := {}
+
+/-- The windows whose count is known exactly: the root window (no dying parent can take a reference from it), and
+    every window the library holds no reference of its own to. -/
+def Ghost.covers (gh : Ghost) (i : Nat) : Prop := i = 0 ∨ gh.win i = 0
+
+theorem Ghost.none_covers (i : Nat) : Ghost.none.covers i := .inr rfl
+
+@[simp] theorem Ghost.none_term : Ghost.none.term = 0 := rfl
+@[simp] theorem Ghost.none_win (i : Nat) : Ghost.none.win i = 0 := rfl
+
+variable {gh : Ghost}
+
 /-- The pens' counts: the application's references plus the windows holding the pen. -/
 structure PensOk (st : St) : Prop where
   rc : ∀ (k : Nat) (p : Obj), st.pens[k]? = some p →
@@ -88,7 +110,7 @@ def SimpleOk (st : St) : Prop :=
 /-- The state invariant without the account of the application's window references, generalised to the middle of
     `tickit_window_unref`: the windows in `pending` have been freed by the tree cascade but what they own (pen,
     terminal reference) has not been released yet. -/
-structure SInvB (st : St) (pending : List Nat) : Prop where
+structure SInvB (gh : Ghost) (st : St) (pending : List Nat) : Prop where
   tinv : TInv st.tree
   wx_size : st.wx.size = st.tree.wins.size
   /-- every live window holds at least one reference -/
@@ -100,21 +122,26 @@ structure SInvB (st : St) (pending : List Nat) : Prop where
   pens : PensOk st
   /-- the terminal's count is the application's references plus the root window's -/
   term_held : st.term.freed = false → ((∃ r, LiveW st.tree 0 r) ∨ 0 ∈ pending) →
-    st.term.refcount = (st.term.appRefs : Int) + 1
+    st.term.refcount = (st.term.appRefs : Int) + (gh.term : Int) + 1
   term_free : st.term.freed = false → ¬ ((∃ r, LiveW st.tree 0 r) ∨ 0 ∈ pending) →
-    st.term.refcount = (st.term.appRefs : Int) ∧ 1 ≤ st.term.refcount
-  term_dead : st.term.freed = true → ¬ ((∃ r, LiveW st.tree 0 r) ∨ 0 ∈ pending)
+    st.term.refcount = (st.term.appRefs : Int) + (gh.term : Int) ∧ 1 ≤ st.term.refcount
+  /-- a freed terminal: the root window is gone, nobody holds a reference -/
+  term_dead : st.term.freed = true → ¬ ((∃ r, LiveW st.tree 0 r) ∨ 0 ∈ pending) ∧ st.term.appRefs = 0 ∧ gh.term = 0
   simple : SimpleOk st
 
-/-- The state invariant: `SInvB`, and no live window holds more references than the application has taken (no
-    handler is running, so nobody else holds one). -/
-structure SInvG (st : St) (pending : List Nat) : Prop extends SInvB st pending where
-  wref : ∀ (i : Nat) (w : Win), LiveW st.tree i w → w.refcount ≤ ((getX st i).appRefs : Int)
+/-- The state invariant: `SInvB`, and no live window holds more references than the application has taken and the
+    library holds itself (no handler is running, so nobody else holds one), and exactly that many if the library holds
+    none of its own or the window is the root window. -/
+structure SInvG (gh : Ghost) (st : St) (pending : List Nat) : Prop extends SInvB gh st pending where
+  wref : ∀ (i : Nat) (w : Win), LiveW st.tree i w → w.refcount ≤ ((getX st i).appRefs : Int) + (gh.win i : Int) ∧
+    (gh.covers i → ((getX st i).appRefs : Int) + (gh.win i : Int) ≤ w.refcount)
+  /-- a root window the library itself holds a reference to is alive -/
+  glive : 0 < gh.win 0 → ∃ r, LiveW st.tree 0 r
 
 /-- The state invariant between two operations. -/
-abbrev SInv (st : St) : Prop := SInvG st []
+abbrev SInv (gh : Ghost) (st : St) : Prop := SInvG gh st []
 
-theorem SInvB.rb_rc {st : St} {pend : List Nat} (inv : SInvB st pend) (k : Nat) (b : RBObj) (hb : st.rbs[k]? = some b)
+theorem SInvB.rb_rc {st : St} {pend : List Nat} (inv : SInvB gh st pend) (k : Nat) (b : RBObj) (hb : st.rbs[k]? = some b)
     (hf : b.freed = false) : 1 ≤ b.refcount := (inv.simple.1 k b hb hf).1
 
 theorem getX_setX (st : St) (i : Nat) (x : WinX) (j : Nat) :
@@ -251,6 +278,7 @@ end Tickit.Life
 
 namespace Tickit.Life
 open WinTree (Id Win Req Change Tree)
+variable {gh : Ghost}
 
 /-! ## changes that leave every window's pen alone -/
 
@@ -280,9 +308,9 @@ theorem getX_pen_of_map {st st' : St} (h : st'.wx.toList.map (·.pen) = st.wx.to
     rw [Array.getElem?_eq_none (Nat.le_of_not_lt hj), Array.getElem?_eq_none (Nat.le_of_not_lt hj')]
 
 /-- A change of the windows' records that leaves every pen (and everything else) alone keeps the invariant. -/
-theorem SInvB.of_wx {st st' : St} {pend : List Nat} (inv : SInvB st pend) (ht : st'.tree = st.tree)
+theorem SInvB.of_wx {st st' : St} {pend : List Nat} (inv : SInvB gh st pend) (ht : st'.tree = st.tree)
     (hp : st'.pens = st.pens) (htm : st'.term = st.term) (hrb : st'.rbs = st.rbs) (hstr : st'.strs = st.strs)
-    (hm : st'.wx.toList.map (·.pen) = st.wx.toList.map (·.pen)) : SInvB st' pend := by
+    (hm : st'.wx.toList.map (·.pen) = st.wx.toList.map (·.pen)) : SInvB gh st' pend := by
   have hh := holders_of_pens_eq hm
   have hg := getX_pen_of_map hm
   have hlen : st'.wx.size = st.wx.size := by
@@ -346,11 +374,12 @@ end Tickit.Life
 
 namespace Tickit.Life
 open WinTree (Id Win Req Change Tree)
+variable {gh : Ghost}
 
 /-! ## releasing what a destroyed window owned -/
 
-theorem releaseWin_ok {st : St} {d : Nat} {rest : List Nat} (inv : SInvB st (d :: rest)) :
-    ∃ st', releaseWin st d = .ok st' ∧ SInvB st' rest ∧ st'.tree = st.tree ∧
+theorem releaseWin_ok {st : St} {d : Nat} {rest : List Nat} (inv : SInvB gh st (d :: rest)) :
+    ∃ st', releaseWin st d = .ok st' ∧ SInvB gh st' rest ∧ st'.tree = st.tree ∧
       ∀ (j : Nat), (getX st' j).appRefs = (getX st j).appRefs := by
   obtain ⟨dw, hdw, hdf⟩ := inv.pend_freed d (by simp)
   have hd : d < st.wx.size := by
@@ -361,7 +390,7 @@ theorem releaseWin_ok {st : St} {d : Nat} {rest : List Nat} (inv : SInvB st (d :
       rw [hdw] at this; cases this
   have hnd := List.nodup_cons.1 inv.pend_nodup
   -- step 1: the bindings go
-  have inv1 : SInvB (setX st d { getX st d with binds := [] }) (d :: rest) :=
+  have inv1 : SInvB gh (setX st d { getX st d with binds := [] }) (d :: rest) :=
     inv.of_wx rfl rfl rfl rfl rfl (setX_map_pen _ rfl)
   have hd1 : d < (setX st d { getX st d with binds := [] }).wx.size := by simpa using hd
   -- step 2: the pen goes
@@ -389,7 +418,7 @@ theorem releaseWin_ok {st : St} {d : Nat} {rest : List Nat} (inv : SInvB st (d :
       show (getX st2 j).appRefs = _
       rw [e, getX_setX_self _ hd]
     · rw [hget_ne j hj]
-  have base : SInvB (setX st2 d { getX st2 d with pen := .null }) rest ∨ d = 0 := by
+  have base : SInvB gh (setX st2 d { getX st2 d with pen := .null }) rest ∨ d = 0 := by
     by_cases hd0 : d = 0
     · exact .inr hd0
     · left
@@ -421,11 +450,11 @@ theorem releaseWin_ok {st : St} {d : Nat} {rest : List Nat} (inv : SInvB st (d :
             · exact absurd h'.symm hd0
             · exact .inr h')
       · simp only [setX_term, setX_tree, htm2, ht2]
-        intro hf h
-        exact inv.term_dead hf (by
+        intro hf
+        refine ⟨fun h => (inv.term_dead hf).1 (by
           rcases h with h | h
           · exact .inl h
-          · exact .inr (by simp [h]))
+          · exact .inr (by simp [h])), (inv.term_dead hf).2⟩
   unfold releaseWin
   simp only [hdrop, bind_ok]
   by_cases hd0 : d = 0
@@ -435,7 +464,7 @@ theorem releaseWin_ok {st : St} {d : Nat} {rest : List Nat} (inv : SInvB st (d :
     have htf : st.term.freed = false := by
       cases htf : st.term.freed with
       | false => rfl
-      | true => exact absurd (.inr (by simp)) (inv.term_dead htf)
+      | true => exact absurd (.inr (by simp)) (inv.term_dead htf).1
     have hheld := inv.term_held htf (.inr (by simp))
     have hterm : (setX st2 0 { getX st2 0 with pen := .null }).term = st.term := by simp [htm2]
     rw [hterm]
@@ -474,8 +503,11 @@ theorem releaseWin_ok {st : St} {d : Nat} {rest : List Nat} (inv : SInvB st (d :
       simp only [dropped_freed, decide_eq_false_iff_not] at hf
       simp only [dropped_refcount, dropped_appRefs]
       constructor <;> omega
-    · intro _ h
-      exact hnoroot (by simpa [setX, ht2] using h)
+    · intro hf
+      refine ⟨fun h => hnoroot (by simpa [setX, ht2] using h), ?_⟩
+      simp only [dropped_freed, decide_eq_true_eq] at hf
+      simp only [dropped_appRefs]
+      constructor <;> omega
   · simp only [hd0, if_false, pure_ok]
     rcases base with b | b
     · exact ⟨_, rfl, b, by simp [ht2], happ⟩
@@ -485,11 +517,12 @@ end Tickit.Life
 
 namespace Tickit.Life
 open WinTree (Id Win Req Change Tree)
+variable {gh : Ghost}
 
 /-! ## `tickit_window_unref` on the whole state -/
 
-theorem release_all : ∀ (dead : List Nat) {st : St}, SInvB st dead →
-    ∃ st', dead.foldlM releaseWin st = .ok st' ∧ SInvB st' [] ∧ st'.tree = st.tree ∧
+theorem release_all : ∀ (dead : List Nat) {st : St}, SInvB gh st dead →
+    ∃ st', dead.foldlM releaseWin st = .ok st' ∧ SInvB gh st' [] ∧ st'.tree = st.tree ∧
       ∀ (j : Nat), (getX st' j).appRefs = (getX st j).appRefs
   | [], st, inv => ⟨st, rfl, inv, rfl, fun _ => rfl⟩
   | d :: rest, st, inv => by
@@ -537,14 +570,23 @@ theorem live_or_freed_root {t t' : Tree} (ev : TEv t t') (dead : List Nat) (hd :
     | true => exact .inr ((hd.2 0).2 ⟨⟨r, hl⟩, r', hr', hf⟩)
 
 /-- The tree part of `tickit_window_unref` of a live window: it never fails; what it leaves behind. -/
-theorem unrefT_ok {cfg : Cfg} (R : Repaired cfg) {st : St} (inv : SInvB st []) {x : Nat} {xw : Win}
+theorem unrefT_ok {cfg : Cfg} (R : Repaired cfg) {st : St} (inv : SInvB gh st []) {x : Nat} {xw : Win}
     (hl : LiveW st.tree x xw) :
-    ∃ t' dead dropped, unrefT cfg st.tree x = .ok (t', dead, dropped) ∧ SInvB { st with tree := t' } dead ∧
+    ∃ t' dead dropped, unrefT cfg st.tree x = .ok (t', dead, dropped) ∧ SInvB gh { st with tree := t' } dead ∧
       t'.wins.size = st.tree.wins.size ∧
       (∀ (i : Nat) (w : Win), st.tree.wins[i]? = some w → w.freed = true → ∃ w', t'.wins[i]? = some w' ∧ w'.freed = true) ∧
-      dropped.Nodup ∧
+      (dropped.Nodup ∧ ∀ i ∈ dropped, x < i) ∧
       (∀ (i : Nat) (w' : Win), LiveW t' i w' → ∃ w, LiveW st.tree i w ∧
-        w'.refcount + (if i = x then 1 else 0) + (if i ∈ dropped then 1 else 0) ≤ w.refcount) := by
+        w'.refcount + (if i = x then 1 else 0) + (if i ∈ dropped then 1 else 0) ≤ w.refcount) ∧
+      (∀ (i : Nat) (w w' : Win), LiveW st.tree i w → LiveW t' i w' →
+        w.refcount ≤ w'.refcount + (if i = x then 1 else 0) + (if i ∈ dropped then 1 else 0)) ∧
+      (∀ (w : Win), LiveW st.tree 0 w → (x ≠ 0 ∨ 2 ≤ w.refcount) → ∃ w', LiveW t' 0 w') ∧
+      -- where the cascade reaches: below `x`; what is not listed dead lives on; links are only removed; and a cascade
+      -- there is only if that was the last reference
+      ((∀ (i : Nat), i ∈ dead ∨ i ∈ dropped → Reach st.tree i x) ∧
+       (∀ (i : Nat) (w : Win), LiveW st.tree i w → i ∉ dead → ∃ w', LiveW t' i w') ∧
+       PSub st.tree t' ∧
+       ((dead ≠ [] ∨ dropped ≠ []) → xw.refcount = 1)) := by
   have hr1 := inv.rc x xw hl
   obtain ⟨inv0, _⟩ := inv.tinv.set_refcount hl (xw.refcount - 1)
   have hl0 : LiveW (WinTree.set st.tree x { xw with refcount := xw.refcount - 1 }) x { xw with refcount := xw.refcount - 1 } :=
@@ -596,7 +638,61 @@ theorem unrefT_ok {cfg : Cfg} (R : Repaired cfg) {st : St} (inv : SInvB st []) {
         by_cases h0 : (0 : Nat) = x
         · subst h0; exact ⟨_, hl0⟩
         · exact ⟨r, by rw [set_get_ne _ (Ne.symm h0)]; exact hr.1, hr.2⟩
-    refine ⟨?_, hsz, fun i w hw hf => by obtain ⟨w', hw', h1, _⟩ := evs i w hw; exact ⟨w', hw', h1 hf⟩, C.drop.1, ?_⟩
+    have psub0 : PSub st.tree (WinTree.set st.tree x { xw with refcount := 0 }) := by
+      intro i w' p hw' hp'
+      by_cases hix : x = i
+      · subst hix
+        rw [set_get_self _ hl.lt] at hw'; cases hw'
+        exact ⟨xw, hl.1, hp'⟩
+      · rw [set_get_ne _ hix] at hw'; exact ⟨w', hw', hp'⟩
+    have hX : (∀ (i : Nat), i ∈ dead ∨ i ∈ dropped → Reach st.tree i x) ∧
+        (∀ (i : Nat) (w : Win), LiveW st.tree i w → i ∉ dead → ∃ w', LiveW t' i w') ∧ PSub st.tree t' ∧
+        ((dead ≠ [] ∨ dropped ≠ []) → xw.refcount = 1) := by
+      refine ⟨fun i hi => psub0.reach (C.reach i hi), ?_, psub0.trans C.psub, fun _ => by omega⟩
+      intro i w hlw hnd
+      obtain ⟨w', hw', _, _⟩ := evs i w hlw.1
+      refine ⟨w', hw', ?_⟩
+      cases hf' : w'.freed with
+      | false => rfl
+      | true =>
+        exfalso
+        apply hnd
+        refine (C.dead.2 i).2 ⟨?_, w', hw', hf'⟩
+        by_cases hix : i = x
+        · subst hix; exact ⟨_, hl0⟩
+        · exact ⟨w, by rw [set_get_ne _ (Ne.symm hix)]; exact hlw.1, hlw.2⟩
+    refine ⟨?_, hsz, fun i w hw hf => by obtain ⟨w', hw', h1, _⟩ := evs i w hw; exact ⟨w', hw', h1 hf⟩,
+      ⟨C.drop.1, fun i hi => (C.drop.2 i hi).1⟩, ?_, ?_, ?_, hX⟩
+    rotate_right 2
+    · -- the mirror of the upper bound: only `x` and the dropped children lose a reference, and exactly one
+      intro i w w' hlw hlw'
+      obtain ⟨w'', hw'', _, h3⟩ := evs i w hlw.1
+      have e1 : w'' = w' := by rw [hlw'.1] at hw''; exact (Option.some.inj hw'').symm
+      subst e1
+      obtain ⟨hix, _, _⟩ := h3 hlw'.2
+      have ht0 : (WinTree.set st.tree x { xw with refcount := 0 }).wins[i]? = some w := by
+        rw [set_get_ne _ (Ne.symm hix)]; exact hlw.1
+      simp only [hix, if_false]
+      by_cases hd' : i ∈ dropped
+      · have := ((C.drop.2 i hd').2.2 w w'' ht0 hlw'.1 hlw'.2).1
+        simp only [hd', if_true]; omega
+      · simp only [hd', if_false]
+        have := C.conv i w w'' hix ht0 hlw'.1 hlw'.2 hd'
+        omega
+    · -- the root window is not below `x`: it stays
+      intro w hlw hcase
+      have hx0 : x ≠ 0 := by
+        rcases hcase with h | h
+        · exact h
+        · intro e; subst e
+          have := LiveW.unique hlw hl; subst this
+          omega
+      have hxpos : 0 < x := Nat.pos_of_ne_zero hx0
+      have ht0 : (WinTree.set st.tree x { xw with refcount := 0 }).wins[0]? = some w := by
+        rw [set_get_ne _ hx0]; exact hlw.1
+      rcases C.below 0 w hxpos ht0 with ⟨_, h⟩ | ⟨_, h⟩
+      · exact ⟨w, h, hlw.2⟩
+      · exact ⟨_, h, hlw.2⟩
     refine ⟨C.inv, by simp only; rw [hsz]; exact inv.wx_size, ?_, C.dead.1, ?_, ?_, ?_, ?_, ?_, ?_, inv.simple⟩
     · intro i w hli
       cases h0 : st.tree.wins[i]? with
@@ -647,8 +743,8 @@ theorem unrefT_ok {cfg : Cfg} (R : Repaired cfg) {st : St} (inv : SInvB st []) {
         rintro (h' | h')
         · exact h (hroot.2 h')
         · simp at h')
-    · intro hf h
-      exact inv.term_dead hf (.inl (hroot.1 h))
+    · intro hf
+      exact ⟨fun h => (inv.term_dead hf).1 (.inl (hroot.1 h)), (inv.term_dead hf).2⟩
     · -- the counts of the survivors
       intro i w' hli
       cases h0 : st.tree.wins[i]? with
@@ -677,7 +773,39 @@ theorem unrefT_ok {cfg : Cfg} (R : Repaired cfg) {st : St} (inv : SInvB st []) {
         · simp only [hd', if_false]
           rcases e.2.2.1 hli.2 with h | ⟨h, _, _⟩ <;> omega
   · simp only [hz, if_false, pure_ok]
-    refine ⟨_, [], [], rfl, ?_, by simp only [set_size], ?_, List.nodup_nil, ?_⟩
+    have hX : (∀ (i : Nat), i ∈ ([] : List Nat) ∨ i ∈ ([] : List Nat) → Reach st.tree i x) ∧
+        (∀ (i : Nat) (w : Win), LiveW st.tree i w → i ∉ ([] : List Nat) →
+          ∃ w', LiveW (WinTree.set st.tree x { xw with refcount := xw.refcount - 1 }) i w') ∧
+        PSub st.tree (WinTree.set st.tree x { xw with refcount := xw.refcount - 1 }) ∧
+        ((([] : List Nat) ≠ [] ∨ ([] : List Nat) ≠ []) → xw.refcount = 1) := by
+      refine ⟨fun i hi => (by rcases hi with h | h <;> cases h), ?_, ?_, fun h => (by rcases h with h | h <;> exact absurd rfl h)⟩
+      · intro i w hlw _
+        by_cases hix : i = x
+        · subst hix; exact ⟨_, hl0⟩
+        · exact ⟨w, by rw [set_get_ne _ (Ne.symm hix)]; exact hlw.1, hlw.2⟩
+      · intro i w' p hw' hp'
+        by_cases hix : x = i
+        · subst hix
+          rw [set_get_self _ hl.lt] at hw'; cases hw'
+          exact ⟨xw, hl.1, hp'⟩
+        · rw [set_get_ne _ hix] at hw'; exact ⟨w', hw', hp'⟩
+    refine ⟨_, [], [], rfl, ?_, by simp only [set_size], ?_, ⟨List.nodup_nil, by intro i hi; cases hi⟩, ?_, ?_, ?_, hX⟩
+    rotate_right 2
+    · intro i w w' hlw hlw'
+      by_cases hix : i = x
+      · subst hix
+        have := LiveW.unique hlw' hl0; subst this
+        have := LiveW.unique hlw hl; subst this
+        simp only [if_true, List.not_mem_nil, if_false]
+        show w.refcount ≤ w.refcount - 1 + 1 + 0
+        omega
+      · have : LiveW st.tree i w' := ⟨by rw [← set_get_ne _ (Ne.symm hix)]; exact hlw'.1, hlw'.2⟩
+        have := LiveW.unique hlw this; subst this
+        simp only [hix, if_false, List.not_mem_nil]; omega
+    · intro w hlw _
+      by_cases h0x : x = 0
+      · subst h0x; exact ⟨_, hl0⟩
+      · exact ⟨w, by rw [set_get_ne _ h0x]; exact hlw.1, hlw.2⟩
     rotate_left
     · intro i w hw hf
       by_cases hix : i = x
@@ -721,10 +849,10 @@ theorem unrefT_ok {cfg : Cfg} (R : Repaired cfg) {st : St} (inv : SInvB st []) {
           by_cases h0 : (0 : Nat) = x
           · subst h0; exact ⟨_, hl0⟩
           · exact ⟨r, by rw [set_get_ne _ (Ne.symm h0)]; exact hr.1, hr.2⟩
-      intro hf h
-    · exact inv.term_held hf (by rcases h with h | h; exact .inl (hroot.1 h); simp at h)
-    · exact inv.term_free hf (by rintro (h' | h'); exact h (.inl (hroot.2 h')); simp at h')
-    · exact inv.term_dead hf (by rcases h with h | h; exact .inl (hroot.1 h); simp at h)
+      intro hf
+    · intro h; exact inv.term_held hf (by rcases h with h | h; exact .inl (hroot.1 h); simp at h)
+    · intro h; exact inv.term_free hf (by rintro (h' | h'); exact h (.inl (hroot.2 h')); simp at h')
+    · exact ⟨fun h => (inv.term_dead hf).1 (by rcases h with h | h; exact .inl (hroot.1 h); simp at h), (inv.term_dead hf).2⟩
 
 theorem heldW_spec {st : St} {i : Nat} (h : heldW st i = true) : ∃ w, LiveW st.tree i w ∧ 0 < (getX st i).appRefs := by
   unfold heldW at h
@@ -758,21 +886,53 @@ theorem consume_appRefs : ∀ (dropped : List Nat) (st : St) (j : Nat), dropped.
       simp only [List.mem_cons, hji, false_or]
       exact ih
 
+/-- `consume` takes exactly one reference of a listed window the application holds. -/
+theorem consume_dec : ∀ (dropped : List Nat) (st : St) (j : Nat), dropped.Nodup → j ∈ dropped → j < st.wx.size →
+    (getX (consume st dropped) j).appRefs = (getX st j).appRefs - 1
+  | [], _, _, _, hj, _ => by cases hj
+  | i :: rest, st, j, hnd, hj, hlt => by
+    obtain ⟨hni, hnd'⟩ := List.nodup_cons.1 hnd
+    have e : consume st (i :: rest) = consume (setX st i { getX st i with appRefs := (getX st i).appRefs - 1 }) rest := rfl
+    rw [e]
+    simp only [List.mem_cons] at hj
+    by_cases hij : j = i
+    · subst hij
+      -- the rest does not touch `j`
+      have h1 := consume_appRefs rest (setX st j { getX st j with appRefs := (getX st j).appRefs - 1 }) j hnd'
+      simp only [hni, if_false, Nat.add_zero] at h1
+      rw [getX_setX_self _ hlt] at h1
+      have : (getX (consume (setX st j { getX st j with appRefs := (getX st j).appRefs - 1 }) rest) j).appRefs =
+          (getX st j).appRefs - 1 := Nat.le_antisymm h1.1 h1.2
+      exact this
+    · have hjr : j ∈ rest := by rcases hj with h | h; exact absurd h hij; exact h
+      have ih := consume_dec rest (setX st i { getX st i with appRefs := (getX st i).appRefs - 1 }) j hnd' hjr (by simpa using hlt)
+      rw [ih, getX_setX_ne _ (fun h => hij h.symm)]
+
 /-- `tickit_window_unref` by the application on a window it holds: never fails, keeps the invariant; the tree keeps
     its size, what was freed stays freed, and the application has one reference less. -/
-theorem unrefW_ok {cfg : Cfg} (R : Repaired cfg) {st : St} (inv : SInv st) {x : Nat} (hh : heldW st x = true) :
-    ∃ st', unrefW cfg (setX st x { getX st x with appRefs := (getX st x).appRefs - 1 }) x = .ok st' ∧ SInv st' ∧
+theorem unrefW_ok {cfg : Cfg} (R : Repaired cfg) {st : St} (inv : SInv gh st) {x : Nat} (hh : heldW st x = true) :
+    ∃ st', unrefW cfg (setX st x { getX st x with appRefs := (getX st x).appRefs - 1 }) x = .ok st' ∧ SInv gh st' ∧
       st'.tree.wins.size = st.tree.wins.size ∧
       (∀ (i : Nat) (w : Win), st.tree.wins[i]? = some w → w.freed = true →
         ∃ w', st'.tree.wins[i]? = some w' ∧ w'.freed = true) ∧
-      (getX st' x).appRefs + 1 ≤ (getX st x).appRefs := by
+      (getX st' x).appRefs + 1 ≤ (getX st x).appRefs ∧ (∀ (j : Nat), (getX st' j).appRefs ≤ (getX st j).appRefs) ∧
+      -- the same in detail: who has died (`dead`), whose reference a dying parent has taken (`dropped`)
+      (∃ dead dropped : List Nat,
+        (∀ (i : Nat) (w' : Win), LiveW st'.tree i w' → ∃ w, LiveW st.tree i w ∧
+          w.refcount = w'.refcount + (if i = x then 1 else 0) + (if i ∈ dropped then 1 else 0)) ∧
+        (∀ (i : Nat), i < st.wx.size → (getX st' i).appRefs = (getX st i).appRefs - (if i = x then 1 else 0) - (if i ∈ dropped then 1 else 0)) ∧
+        (∀ (i : Nat), i ∈ dead ∨ i ∈ dropped → Reach st.tree i x ∧ i ≠ x ∨ i = x ∧ i ∈ dead) ∧
+        (∀ (i : Nat) (w : Win), LiveW st.tree i w → i ∉ dead → ∃ w', LiveW st'.tree i w') ∧
+        PSub st.tree st'.tree ∧
+        ((dead ≠ [] ∨ dropped ≠ []) → ∀ (w : Win), LiveW st.tree x w → w.refcount = 1) ∧
+        (∀ i ∈ dropped, x < i) ∧ (∀ i ∈ dead, ∀ (w' : Win), ¬ LiveW st'.tree i w')) := by
   obtain ⟨xw, hl, hpos⟩ := heldW_spec hh
   have hxlt : x < st.wx.size := by rw [inv.wx_size]; exact hl.lt
-  have inv0 : SInvB (setX st x { getX st x with appRefs := (getX st x).appRefs - 1 }) [] :=
+  have inv0 : SInvB gh (setX st x { getX st x with appRefs := (getX st x).appRefs - 1 }) [] :=
     inv.toSInvB.of_wx rfl rfl rfl rfl rfl (setX_map_pen _ rfl)
-  obtain ⟨t', dead, dropped, ht, invG, hsz, hfr, hnd, hcnt⟩ := unrefT_ok R inv0 (x := x) (xw := xw) hl
+  obtain ⟨t', dead, dropped, ht, invG, hsz, hfr, ⟨hnd, hdgt⟩, hcnt, hlow, hrootl, hXt⟩ := unrefT_ok R inv0 (x := x) (xw := xw) hl
   have hf := consume_frame dropped { (setX st x { getX st x with appRefs := (getX st x).appRefs - 1 }) with tree := t' }
-  have invC : SInvB (consume { (setX st x { getX st x with appRefs := (getX st x).appRefs - 1 }) with tree := t' } dropped) dead :=
+  have invC : SInvB gh (consume { (setX st x { getX st x with appRefs := (getX st x).appRefs - 1 }) with tree := t' } dropped) dead :=
     invG.of_wx hf.1 hf.2.1 hf.2.2.1 hf.2.2.2.1 hf.2.2.2.2.1 (consume_map_pen dropped _)
   obtain ⟨st2, hfold, inv2, ht2, ha2⟩ := release_all dead invC
   have htree : st2.tree = t' := by rw [ht2, hf.1]
@@ -791,7 +951,22 @@ theorem unrefW_ok {cfg : Cfg} (R : Repaired cfg) {st : St} (inv : SInv st) {x : 
       omega
     · simp only [hxj, false_and, if_false] at hc ⊢
       omega
-  refine ⟨st2, ?_, ⟨inv2, ?_⟩, by rw [htree]; exact hsz, ?_, ?_⟩
+  have hgl : 0 < gh.win 0 → ∃ r, LiveW st2.tree 0 r := by
+    -- a root window the library holds survives the application's unref
+    intro hg
+    rw [htree]
+    obtain ⟨r, hr⟩ := inv.glive hg
+    refine hrootl r hr ?_
+    by_cases hx0 : x = 0
+    · right
+      subst hx0
+      have := LiveW.unique hr hl; subst this
+      have h2 := (inv.wref 0 r hr).2 (.inl rfl)
+      have : (1 : Int) ≤ ((getX st 0).appRefs : Int) := by exact_mod_cast hpos
+      have : (1 : Int) ≤ (gh.win 0 : Int) := by exact_mod_cast hg
+      omega
+    · exact .inl hx0
+  refine ⟨st2, ?_, ⟨inv2, ?_, hgl⟩, by rw [htree]; exact hsz, ?_, ?_⟩
   · unfold unrefW
     simp only [setX_tree] at ht
     simp only [setX_tree, ht, bind_ok]
@@ -799,20 +974,112 @@ theorem unrefW_ok {cfg : Cfg} (R : Repaired cfg) {st : St} (inv : SInv st) {x : 
   · intro i w' hli
     rw [htree] at hli
     obtain ⟨w, hlw, hle⟩ := hcnt i w' hli
-    have h1 := inv.wref i w hlw
+    have h1 := (inv.wref i w hlw).1
     have h2 := happ i
-    by_cases hxi : x = i
-    · subst hxi
-      simp only [if_true] at hle h2
-      by_cases hd' : x ∈ dropped <;> simp only [hd', if_true, if_false] at hle h2 <;> omega
-    · have hix : ¬ i = x := fun h => hxi h.symm
-      simp only [hxi, hix, if_false] at hle h2
-      by_cases hd' : i ∈ dropped <;> simp only [hd', if_true, if_false] at hle h2 <;> omega
+    refine ⟨?_, ?_⟩
+    · by_cases hxi : x = i
+      · subst hxi
+        simp only [if_true] at hle h2
+        by_cases hd' : x ∈ dropped <;> simp only [hd', if_true, if_false] at hle h2 <;> omega
+      · have hix : ¬ i = x := fun h => hxi h.symm
+        simp only [hxi, hix, if_false] at hle h2
+        by_cases hd' : i ∈ dropped <;> simp only [hd', if_true, if_false] at hle h2 <;> omega
+    · intro hcov
+      have h3 := (inv.wref i w hlw).2 hcov
+      have h4 := hlow i w w' hlw hli
+      by_cases hxi : x = i
+      · subst hxi
+        have hxd : x ∉ dropped := fun hd' => by have := hdgt x hd'; omega
+        simp only [if_true, hxd, if_false] at h4 h2
+        omega
+      · have hix : ¬ i = x := fun h => hxi h.symm
+        simp only [hix, if_false] at h4
+        by_cases hd' : i ∈ dropped
+        · simp only [hd', if_true] at h4
+          have hilt : i < st.wx.size := by rw [inv.wx_size]; exact hlw.lt
+          have hdec := consume_dec dropped { (setX st x { getX st x with appRefs := (getX st x).appRefs - 1 }) with tree := t' } i hnd hd'
+            (by simpa using hilt)
+          have e0 : getX { (setX st x { getX st x with appRefs := (getX st x).appRefs - 1 }) with tree := t' } i =
+              getX (setX st x { getX st x with appRefs := (getX st x).appRefs - 1 }) i := rfl
+          rw [e0, getX_setX_ne _ hxi] at hdec
+          rw [ha2 i, hdec]
+          have h5 := inv.rc i w hlw
+          have hrc' : 1 ≤ w'.refcount := by
+            have := inv2.rc i w' (by rw [htree]; exact hli)
+            exact this
+          -- the child had two references at least, so the application held one
+          rcases hcov with h0 | hg
+          · subst h0
+            have := hdgt 0 hd'
+            omega
+          · rw [hg] at h3 ⊢
+            have : (1 : Int) ≤ ((getX st i).appRefs : Int) := by omega
+            omega
+        · simp only [hd', if_false] at h4
+          have := (happ i).1
+          simp only [hxi, if_false] at this
+          have h7 : ((getX st2 i).appRefs : Int) ≤ ((getX st i).appRefs : Int) := by exact_mod_cast this
+          omega
   · intro i w hw hfw
     rw [htree]
     exact hfr i w hw hfw
-  · have := (happ x).1
-    simp only [if_true] at this
-    omega
+  · refine ⟨?_, fun j => ?_, dead, dropped, ?_, ?_, ?_, ?_, ?_, ?_, hdgt, ?_⟩
+    rotate_right
+    · intro i hi w' hlw'
+      rw [htree] at hlw'
+      obtain ⟨w, hw, hf⟩ := invG.pend_freed i hi
+      have hw2 : t'.wins[i]? = some w := hw
+      rw [hlw'.1] at hw2; cases hw2
+      rw [hlw'.2] at hf; cases hf
+    · have := (happ x).1
+      simp only [if_true] at this
+      omega
+    · have := (happ j).1
+      omega
+    · intro i w' hli
+      rw [htree] at hli
+      obtain ⟨w, hlw, hle⟩ := hcnt i w' hli
+      have := hlow i w w' hlw hli
+      exact ⟨w, hlw, by omega⟩
+    · intro i hilt
+      rw [ha2 i]
+      have e0 : getX { (setX st x { getX st x with appRefs := (getX st x).appRefs - 1 }) with tree := t' } i =
+          getX (setX st x { getX st x with appRefs := (getX st x).appRefs - 1 }) i := rfl
+      by_cases hd' : i ∈ dropped
+      · have hdec := consume_dec dropped { (setX st x { getX st x with appRefs := (getX st x).appRefs - 1 }) with tree := t' } i hnd hd'
+          (by simpa using hilt)
+        rw [hdec, e0, getX_setX]
+        have hxi : ¬ x = i := fun e => by have := hdgt i hd'; omega
+        have hix : ¬ i = x := fun e => hxi e.symm
+        simp only [hxi, false_and, if_false, hix, hd', if_true]
+        omega
+      · have hc := consume_appRefs dropped { (setX st x { getX st x with appRefs := (getX st x).appRefs - 1 }) with tree := t' } i hnd
+        simp only [hd', if_false, Nat.add_zero] at hc
+        have : (getX (consume { (setX st x { getX st x with appRefs := (getX st x).appRefs - 1 }) with tree := t' } dropped) i).appRefs =
+            (getX { (setX st x { getX st x with appRefs := (getX st x).appRefs - 1 }) with tree := t' } i).appRefs :=
+          Nat.le_antisymm hc.1 hc.2
+        rw [this, e0, getX_setX]
+        by_cases hxi : x = i
+        · subst hxi
+          simp only [hxlt, and_self, if_true, hd', if_false]
+          omega
+        · have hix : ¬ i = x := fun e => hxi e.symm
+          simp only [hxi, false_and, if_false, hix, hd']
+          omega
+    · intro i hi
+      by_cases hix : i = x
+      · right
+        refine ⟨hix, ?_⟩
+        rcases hi with h | h
+        · exact h
+        · exfalso; have := hdgt i h; omega
+      · exact .inl ⟨hXt.1 i hi, hix⟩
+    · intro i w hlw hnd'
+      rw [htree]
+      exact hXt.2.1 i w hlw hnd'
+    · rw [htree]; exact hXt.2.2.1
+    · intro hne w hlw
+      have := LiveW.unique hlw hl; subst this
+      exact hXt.2.2.2 hne
 
 end Tickit.Life
